@@ -241,7 +241,15 @@ func runSolver(sp solverSpec, script string, dir string, id string, timeout int)
 	out, err := exec.CommandContext(ctx, argv[0], argv[1:]...).CombinedOutput()
 	el := time.Since(start).Seconds()
 	text := strings.TrimSpace(string(out))
-	first := strings.TrimSpace(strings.SplitN(text, "\n", 2)[0])
+	first := ""
+	for _, ln := range strings.Split(text, "\n") {
+		ln = strings.TrimSpace(ln)
+		if ln == "" || strings.HasPrefix(ln, "WARNING") || strings.HasPrefix(ln, "(warning") {
+			continue
+		}
+		first = ln
+		break
+	}
 	switch first {
 	case "unsat", "sat", "unknown", "timeout":
 		return first, text, el
